@@ -209,13 +209,67 @@ def shift_operands(p, rnd):
     return sorted({v for v in ops if 0 <= v < p})
 
 
+def of_length(rng, n):
+    """Three values of exactly n bits: the smallest, the largest, a seeded one."""
+    return [1 << (n - 1), (1 << n) - 1, rng.getrandbits(n) | (1 << (n - 1))]
+
+
+def boundary_lengths(b):
+    """Bit lengths at the machine-word / limb boundaries and around the bit size b of the prime."""
+    return sorted({n for n in (1, 2, 31, 32, 33, 63, 64, 65, 66, 127, 128, 129, 130, 191, 192, 193, 194, b - 1, b, b + 1, b + 2)
+                   if 1 <= n <= b + 2})
+
+
+def bit_length_cases(rng, p, quick, stats):
+    """Operands and exponents of EVERY bit length 1..bits(p)+2 (fourth audit: canonical operands of 67..240 bits and
+    exponents of 65..247 bits were never generated; a `u128` fast path in `add`, an `as u64` on the exponent
+    escaped).  Values at and above p are no field elements: they are compared with the mirror only."""
+    b = nbits(p)
+    out = []
+    lens = list(range(1, b + 3))
+    blens = set(boundary_lengths(b))
+    for n in lens:
+        x = of_length(rng, n)
+        m = rng.choice(lens)
+        y = of_length(rng, m)
+        for op in OPS:
+            if op in UNARY:
+                out += [(op, v, 0, p) for v in x]
+            elif op in ("shl", "shr"):
+                for k in (1, 64, max(n - 1, 0), max(b - n, 0)):
+                    out.append((op, x[2], k, p))
+            elif op == "pow":
+                out.append((op, x[2], 3, p))                             # bases of every length
+                if n in blens:
+                    out.append((op, x[1], 65537, p))
+            elif op == "div" and n not in blens:                         # the model's Euclid costs 13 ms a case
+                out.append((op, x[2], y[2], p))
+            elif op in ("or", "and", "eq", "lt", "neq", "le", "gt", "ge") and n not in blens:
+                out += [(op, x[1], x[1], p), (op, x[2], y[2], p)]
+            else:
+                out += [(op, x[1], x[1], p), (op, x[2], x[0], p), (op, x[2], y[2], p), (op, y[2], x[2], p)]
+    # exponents: every boundary length, and seeded other lengths (all of them in the thorough tier; a full-size
+    # exponent costs the model about half a second)
+    elens = boundary_lengths(b)
+    others = [n for n in lens if n not in elens]
+    elens += others if not quick else rng.sample(others, min(8, len(others)))
+    for n in sorted(elens):
+        e = of_length(rng, n)
+        out.append(("pow", 3, e[2], p))
+        if n < 100 or not quick:
+            out += [("pow", 2, e[0] + 3, p), ("pow", rng.randrange(p), e[1], p)]
+    stats["bit_lengths"][hex(p)] = {"operands": [lens[0], lens[-1]], "exponent_lengths": sorted(elens)}
+    return out
+
+
 def cases(ctx, primes):
     """Cases on the shipped primes: (op, a, b, p) with canonical operands unless said otherwise."""
     quick = ctx.tier == "quick"
     lines = []
     nrand = 150 if quick else 1500
     npow = 2 if quick else 12
-    stats = {"all_forward_counts": {}, "negative_operand_cases": 0, "non_canonical_cases": 0}
+    stats = {"all_forward_counts": {}, "negative_operand_cases": 0, "non_canonical_cases": 0, "bit_lengths": {},
+             "bit_length_cases": 0}
     for p in primes:
         b = nbits(p)
         vals, counts = boundary(p)
@@ -256,6 +310,9 @@ def cases(ctx, primes):
                         lines.append((op, a, b2, p))
                 for i in range(0, len(rnd) - 1, 2):
                     lines.append((op, rnd[i], rnd[i + 1], p))
+        blc = bit_length_cases(ctx.rng, p, quick, stats)
+        lines += blc
+        stats["bit_length_cases"] += len(blc)
         n0 = len(lines)
         # non-canonical operands (the Rust API takes any BigInt; literals may exceed p): mirror vs implementation only.
         # `pow` is compared with Model.FieldPow.modpow_steps (the mirror of the library routine, which - unlike
@@ -281,6 +338,7 @@ def cases(ctx, primes):
                 for b2 in neg:
                     lines.append((op, a, b2, p))
         stats["negative_operand_cases"] += len(lines) - n0
+    ctx.rng.shuffle(lines)      # the runners shard contiguously: spread the expensive `**` cases
     return lines, stats
 
 
@@ -463,6 +521,25 @@ def dispatch_cases(ctx, curves):
                 cs.append(("i", op, N(p + 3), N(2)))
                 cs.append(("i", op, N(3), N(p + 2)))
                 cs.append(("i", op, N(5), N(p)))
+        # literals of the boundary bit lengths and of seeded other lengths (every length in the thorough tier), for
+        # every operator; exponents at the word boundaries (an `as u64` on the exponent truncates 2^64 + 3 to 3)
+        b_ = nbits(p)
+        dlens = boundary_lengths(b_)
+        rest = [n for n in range(1, b_ + 3) if n not in dlens]
+        dlens = sorted(dlens + (rest if not quick else rng.sample(rest, min(10, len(rest)))))
+        for n in dlens:
+            x, y = of_length(rng, n), of_length(rng, rng.choice(dlens))
+            # the oracle's quotient costs a full-size exponentiation: `/` at six lengths only
+            for op in CHEAP + (["div"] if n in (64, 65, 128, 129, 192, b_) else []):
+                cs.append(("i", op, N(x[1]), N(x[1])))
+                cs.append(("i", op, N(x[2]), N(y[2])))
+            for op in PREFIX_TOK:
+                cs.append(("p", op, N(x[2])))
+        for n in [n for n in (64, 65, 66, 128, 129, 130, 192, 193, b_, b_ + 1) if n <= b_ + 2] + ([] if quick else rest[::8]):
+            e = of_length(rng, n)
+            cs.append(("i", "pow", N(2), N(e[0] + 3)))
+            if n < 100 or not quick:
+                cs.append(("i", "pow", N(3), N(e[2])))
         for op in PREFIX_TOK:
             for a in vals + rnd[:nrand] + band:
                 cs.append(("p", op, N(a)))
@@ -790,14 +867,45 @@ def sweep_lines(primes):
     return ["%s %x %x %x" % (op, a, b, p) for p in primes for op in OPS for a in range(p) for b in range(p)]
 
 
-def alloc_bound(op, a, b, p):
-    """Largest single allocation (bytes) granted to one call: four times the bytes of a value of
-    bits(a) + bits(b) + 2 bits(p) + 256 bits, plus 1 KiB.  Every intermediate value of every function is within
-    that size when the code builds no power beyond the operand / mask width (C16_shift_bounded_work: at most
-    bits(l) + bits(p) bits) and reduces while it exponentiates; 2^count or a^e unreduced is beyond it for the
-    counts and exponents >= 2^20 that are fed.  Measured slack on the unchanged tree: see coverage.work."""
-    bits = nbits(abs(a)) + nbits(abs(b)) + 2 * nbits(p) + 256
-    return 4 * (bits // 8) + 1024
+def limb_bytes(bits):
+    """Bytes of the 64-bit limbs of a value of that many bits."""
+    return 8 * ((max(bits, 1) + 63) // 64)
+
+
+ALLOC_RULE = ("per operation, V = the bit size of the largest value the documented computation forms: max(bits a, bits b, "
+              "bits p) + 2 for the additive, bitwise, comparison, Boolean, quotient and remainder functions; bits a + bits b "
+              "+ 2 for *; bits a + bits b + bits p + 2 for /; for << and >> the model's sw_bits OF THAT CASE "
+              "(Model.Field.shift_w: the power built, the product formed from it, the mask's power) plus one byte per bit of "
+              "p (digit vector of the field); for ~ one byte per bit of max(bits a, 256); for ** the table of 16 residues "
+              "(768 bytes inline) and values of 2 bits p + bits a + bits e + 2 bits.  Granted per allocation: 2 * limb bytes "
+              "of V (capacity rounding) + 64, digit vectors and the table doubled likewise")
+
+
+def alloc_bound(op, a, b, p, sw_bits=None):
+    """Largest single allocation (bytes) granted to one call of `op`: see ALLOC_RULE (fourth audit: one bound sized
+    for `**` was used for all 24 functions; it saw 2^(2^20), not a 10-kbit intermediate)."""
+    la, lb, lp = nbits(abs(a)), nbits(abs(b)), nbits(p)
+    m = max(la, lb, lp) + 2
+    if op == "mul":
+        return 2 * limb_bytes(max(m, la + lb + 2)) + 64
+    if op == "div":
+        return 2 * limb_bytes(la + lb + lp + 2) + 64
+    if op == "compl":
+        return 2 * max(la, 256) + 2 * limb_bytes(max(m, 258)) + 64
+    if op in ("shl", "shr"):
+        return 2 * lp + 2 * limb_bytes(max(m, sw_bits or 0)) + 64
+    if op == "pow":
+        return 2 * 768 + 4 * limb_bytes(2 * lp + la + lb + 2) + 64
+    return 2 * limb_bytes(m) + 64
+
+
+def shift_value_from_record(op_left_candidates, l, k, p):
+    """The two values C16_shift_bounded_work allows when the record says `2^k built`, computed here from k."""
+    b = max(1, nbits(p))          # radix_len p for p > 0
+    left = ((l * (1 << k)) & ((1 << b) - 1)) % p
+    q = abs(l) >> k               # Z.quot truncates towards zero
+    right = -q if l < 0 else q
+    return {"ok " + hx(left), "ok " + hx(right)}
 
 
 def run(ctx, proofs):
@@ -875,9 +983,15 @@ def run(ctx, proofs):
     spec_of = dict(zip(canon_idx, spec_l))
     steps_of = dict(zip(pow_idx, steps_l))
     kinds = {}
-    work = {"cases": 0, "max_alloc_bytes": 0, "max_ratio_to_bound": 0.0, "over_bound": 0,
-            "bound": "4 * (bits a + bits b + 2 bits p + 256) / 8 + 1024 bytes per allocation"}
+    work = {"cases": 0, "max_alloc_bytes": 0, "max_ratio_to_bound": 0.0, "over_bound": 0, "bound": ALLOC_RULE,
+            "per_operation": {}}
+    sw_of = {}             # shift case -> (value text, calls, built, bits) of Model.Field.shift_w
+    for i, ls in zip(shift_idx, sw_l):
+        msw = re.match(r"(.*) calls (\d+) built (-|[0-9a-f]+) bits (\d+)$", ls.split(" = ")[1])
+        if msw:
+            sw_of[i] = (msw.group(1), int(msw.group(2)), None if msw.group(3) == "-" else int(msw.group(3), 16), int(msw.group(4)))
     impl_res = []
+    swork_impl = {"checked": 0, "broken": 0}
     for i, (c, li, lm) in enumerate(zip(cs, impl_l, model_l)):
         op, a, b, p = c
         ri = li.split(" = ")[1]
@@ -921,13 +1035,35 @@ def run(ctx, proofs):
         # bounded work, observed: the largest single allocation of the call
         if alloc is not None:
             work["cases"] += 1
-            bd = alloc_bound(op, a, b, p)
+            bd = alloc_bound(op, a, b, p, sw_of[i][3] if i in sw_of else None)
             work["max_alloc_bytes"] = max(work["max_alloc_bytes"], alloc)
             work["max_ratio_to_bound"] = max(work["max_ratio_to_bound"], round(alloc / bd, 3))
+            po = work["per_operation"].setdefault(op, {"max_alloc": 0, "bound_there": 0, "min_bound": bd})
+            if alloc >= po["max_alloc"]:
+                po["max_alloc"], po["bound_there"] = alloc, bd
+            po["min_bound"] = min(po["min_bound"], bd)
             if alloc > bd:
                 work["over_bound"] += 1
                 failing.append({"case": lines[i], "impl": "%s, after allocating %d bytes at once" % (ri, alloc),
-                                "spec": "bounded work: no intermediate value beyond %d bytes (%s)" % (bd, work["bound"])})
+                                "spec": "bounded work: no single allocation beyond %d bytes for this call of `%s` (the sizes "
+                                        "of the values the documented computation forms, doubled, + 64)" % (bd, op)})
+        # the work record of the model against the IMPLEMENTATION's value (fourth audit: it was only compared with the
+        # model's own value): `2^k built` <=> the value is one of the two formed from 2^k; `none built` <=> 0 or the error
+        if i in sw_of and ri not in ("abort", "timeout", "not-run"):
+            built = sw_of[i][2]
+            if built is None:
+                okr = ri in ("ok 0", "err shift-count")
+                want = "0 or the error (the model's record says no power of two is built)"
+            else:
+                okr = ri in shift_value_from_record(None, a, built, p)
+                want = "(l * 2^k & mask) mod p or l / 2^k for k = %d (the model's record says 2^k is built)" % built
+            swork_impl["checked"] += 1
+            if not okr:
+                swork_impl["broken"] += 1
+                if canon[i]:
+                    failing.append({"case": lines[i], "impl": ri, "spec": want})
+                else:
+                    disagreements.append({"case": lines[i], "impl": ri, "model": "work record of shift_w: " + want})
     common.log("C16 functions on the shipped primes: %.1fs" % (time.time() - t0))
     t0 = time.time()
     # (b'') the shift recursion as written (Model.Field.shift_w, fuel 64) on every shift case, negative and
@@ -935,17 +1071,19 @@ def run(ctx, proofs):
     # (value = the mirror's, <= 2 calls, power built below max(mask width, operand bits), intermediate bits bounded)
     swork = {"cases": len(shift_idx), "hypotheses_0<p_and_fuel>=2_hold": 0, "max_calls": 0, "max_built_exponent": 0,
              "max_intermediate_bits": 0, "conclusion_broken": []}
+    swork["record_vs_implementation_value"] = swork_impl
     for i, ls in zip(shift_idx, sw_l):
         op, a, b, p = cs[i]
         swork["hypotheses_0<p_and_fuel>=2_hold"] += (p > 0)
-        m = re.match(r"(.*) calls (\d+) built (-|[0-9a-f]+) bits (\d+)$", ls.split(" = ")[1])
         rm = model_l[i].split(" = ")[1]
         okc = False
-        if m:
-            calls, built, bits_ = int(m.group(2)), (None if m.group(3) == "-" else int(m.group(3), 16)), int(m.group(4))
+        if i in sw_of:
+            val, calls, built, bits_ = sw_of[i]
             la, lp = nbits(abs(a)), max(1, nbits(p))
-            okc = (m.group(1) == rm and 1 <= calls <= 2 and bits_ <= la + lp
-                   and (built is None or (0 <= built < max(lp, la) and (b == built or b == p - built))))
+            okc = (val == rm and 1 <= calls <= 2 and 0 <= bits_ <= la + lp + 1
+                   and ((built is None and bits_ == 0 and val in ("ok 0", "err div0")) or
+                        (built is not None and 0 <= built < (1 << 64) and (b == built or b == p - built)
+                         and val in shift_value_from_record(None, a, built, p))))
             swork["max_calls"] = max(swork["max_calls"], calls)
             swork["max_built_exponent"] = max(swork["max_built_exponent"], built or 0)
             swork["max_intermediate_bits"] = max(swork["max_intermediate_bits"], bits_)
@@ -1026,7 +1164,9 @@ def run(ctx, proofs):
         "rule": "every operation on every operand pair of the prime fields %s (exhaustive), plus boundary values "
                 "(0,1,p/2-1..p/2+2,p-2,p-1, 2^k+-1 around 1,8,32,64,bits(p),253..256; shift counts 0,1,2,31..33,63..65,127..129,"
                 "191..193,bits(p)-2..bits(p)+1, 2^20, 2^40, 2^64-1, 2^64, p/2, p/2+1 and p minus each of them; EVERY count "
-                "0..bits(p)+1 and p-bits(p)-1..p-1 on ten operands) and seeded random operands for the primes obtained by executing "
+                "0..bits(p)+1 and p-bits(p)-1..p-1 on ten operands), operands of EVERY bit length 1..bits(p)+2 (smallest, largest, "
+                "seeded; same-length and mixed-length pairs) for every function, exponents of the boundary bit lengths and of "
+                "seeded others (coverage.case_classes.bit_lengths) and seeded random operands for the primes obtained by executing "
                 "Curve::from_str / UsefulConstants::new; operands outside [0,p) - at and above p, 2^256+5, 2^300-1, and NEGATIVE "
                 "ones - against the mirror only; a case is distinct-nontrivial per (operation, prime, result) on canonical operands" % small,
         "exhaustive": False,
@@ -1072,13 +1212,18 @@ def run(ctx, proofs):
         "the shipped constants are prime (hypothesis `prime p` of the division and canonicity theorems): Miller-Rabin, 24 bases",
         "bounded time and bounded work are OBSERVED, on the explored cases only: every call (not only large counts) runs under a "
         "2 s watchdog (5 s for a closed expression; a case that times out is re-run alone with a 20 s limit before it counts); "
-        "the largest single allocation of every call on the shipped primes stays below 4*(bits a + bits b + 2 bits p + 256)/8 + "
-        "1024 bytes (counting global allocator in the harness); a harness process that dies (stack overflow, failed allocation) "
-        "is restarted and the case that killed it reported as a failing input.  PROVED, for the mirror of the recursion as "
-        "written and all integer operands: a shift makes at most two calls, builds 2^k only for k below the mask width or the "
-        "operand's bit size, and computes nothing beyond bits(l) + bits(p) bits; `**` makes 17 or 80*limbs(e)+13 modular "
-        "multiplications.  The call count of the Rust recursion itself is not observable: only its termination and its "
-        "allocations are",
+        "the largest SINGLE allocation (not the peak, not the total) of every direct call on the shipped primes - mode `work`; "
+        "the in-process small-field sweep and the dispatch runs have no allocation oracle, the sweep no watchdog of its own "
+        "(it is re-run line by line when it dies or hangs) - stays below a per-operation bound (coverage.work.bound; for a "
+        "shift it is computed from the model's work record of that case; the counter is read before the answer is turned "
+        "into text); a harness process that dies (stack overflow, failed allocation) is restarted and the case that killed "
+        "it reported as a failing input.  PROVED, for the mirror of the recursion as written (value and work record from one "
+        "definition) and all integer operands: a shift makes at most two calls, its record says `2^k built` exactly when "
+        "its value is formed from 2^k (k below the mask width resp. the operand's bit size) and `none` exactly when the "
+        "value is 0 or the error, and the recorded sizes (power, product, mask's power - not field - right, field / 2, the "
+        "results of & / %, the digit vectors) stay within bits(l) + bits(p) + 1; `**` makes 17 or 80*limbs(e)+13 modular "
+        "multiplications.  The record is compared with the IMPLEMENTATION's value on every shift case; the call count of "
+        "the Rust recursion itself is not observable: only its termination and its allocations are",
         "Model.FieldPow mirrors the multiplication SEQUENCE of num-bigint-dig monty_modpow, a Montgomery product being "
         "represented by the residue it stands for; the count is proved for the mirror and cannot be observed on the library; that "
         "this is the code linked is checked on the package `cargo metadata` names: monty.rs without comments and white space "
@@ -1135,7 +1280,20 @@ def replay(ctx, rep):
         ok = div_ok(a, b, p, ri) if op == "div" else spec_accepts(op, a, b, p, canon_res(op, ri), canon_res(op, rs))
     elif ri in ("abort", "timeout", "panic") and not (op == "pow" and b < 0):
         ok = False
-    if alloc is not None and alloc > alloc_bound(op, a, b, p):
-        print("bounded work  : %d bytes allocated at once, bound %d" % (alloc, alloc_bound(op, a, b, p)))
+    swb = None
+    if op in ("shl", "shr"):
+        sw = common.run_lines(MODEL_BIN, ["shift-work"], [line])[0].split(" = ", 1)[1]
+        print("shift_w       :", sw)
+        msw = re.match(r"(.*) calls (\d+) built (-|[0-9a-f]+) bits (\d+)$", sw)
+        if msw:
+            swb = int(msw.group(4))
+            built = None if msw.group(3) == "-" else int(msw.group(3), 16)
+            cr = canon_res(op, ri)
+            if cr not in ("abort", "timeout") and not (cr in ("ok 0", "err shift-count") if built is None
+                                                       else cr in shift_value_from_record(None, a, built, p)):
+                print("work record   : the value is not the one the record allows")
+                ok = False
+    if alloc is not None and alloc > alloc_bound(op, a, b, p, swb):
+        print("bounded work  : %d bytes allocated at once, bound %d" % (alloc, alloc_bound(op, a, b, p, swb)))
         ok = False
     return 0 if ok else 1
